@@ -303,7 +303,10 @@ type htlcWorkload struct {
 	touched  map[string]bool
 	newSeq   int
 	escrow   string
+	shared   bool // on a multi-module chain: do not pay third-party module accounts (gov/farm keep books on their balances)
 }
+
+func (w *htlcWorkload) SetQuiet() { w.shared = true }
 
 func newHTLCWorkload() *htlcWorkload {
 	return &htlcWorkload{book: map[string]*htBook{}, sched: map[int64][]htAction{}, idx: map[string]int{}, escrow: htlcEscrow()}
@@ -584,6 +587,9 @@ func (w *htlcWorkload) pickTo(sender int, tag *htTag) string {
 		return sdk.AccAddress([]byte(fmt.Sprintf("htlc-fresh-addr-%06d", rng.Intn(1000000)))).String()
 	case 7, 8:
 		tag.Note += "/to-module"
+		if w.shared {
+			return authtypes.NewModuleAddress("coinswap").String()
+		}
 		return authtypes.NewModuleAddress(pick(rng, "gov", "coinswap", "farm")).String()
 	case 9, 10:
 		tag.Note += "/to-blocked"
